@@ -1,0 +1,89 @@
+//! Verification hooks: accessors for the private flags of a
+//! [`SimEvent`](crate::SimEvent) and a thread-local log of when the simulator
+//! executed a due action timer or expired an internal timer. Only compiled
+//! with the `verif` feature.
+
+use std::cell::RefCell;
+use std::time::Instant;
+
+use maybenot::TriggerAction;
+
+use crate::SimEvent;
+
+/// What fired.
+#[derive(Debug, Clone, Copy, PartialEq, Eq)]
+pub enum FireKind {
+    /// The action timer of a machine expired with a SendPadding action.
+    Padding,
+    /// The action timer of a machine expired with a BlockOutgoing action.
+    Blocking,
+    /// The internal timer of a machine expired.
+    Timer,
+}
+
+/// One entry of the fire log.
+#[derive(Debug, Clone, PartialEq, Eq)]
+pub struct Fire {
+    /// The number of events the main loop of the simulator had completely
+    /// processed when this fired.
+    pub events_processed: usize,
+    pub client: bool,
+    pub machine: usize,
+    pub kind: FireKind,
+    /// The time the timer was due.
+    pub due: Instant,
+}
+
+thread_local! {
+    static LOG: RefCell<(usize, Vec<Fire>)> = const { RefCell::new((0, Vec::new())) };
+}
+
+pub(crate) fn reset() {
+    LOG.with(|l| {
+        let mut l = l.borrow_mut();
+        l.0 = 0;
+        l.1.clear();
+    });
+}
+
+pub(crate) fn event_processed() {
+    LOG.with(|l| l.borrow_mut().0 += 1);
+}
+
+pub(crate) fn log_fire(client: bool, machine: usize, kind: FireKind, due: Instant) {
+    LOG.with(|l| {
+        let mut l = l.borrow_mut();
+        let events_processed = l.0;
+        l.1.push(Fire {
+            events_processed,
+            client,
+            machine,
+            kind,
+            due,
+        });
+    });
+}
+
+pub(crate) fn log_fire_action(client: bool, action: &TriggerAction, due: Instant) {
+    match action {
+        TriggerAction::SendPadding { machine, .. } => {
+            log_fire(client, machine.into_raw(), FireKind::Padding, due)
+        }
+        TriggerAction::BlockOutgoing { machine, .. } => {
+            log_fire(client, machine.into_raw(), FireKind::Blocking, due)
+        }
+        _ => {}
+    }
+}
+
+/// Take the fire log of the most recent simulation run on this thread.
+pub fn take_fire_log() -> Vec<Fire> {
+    LOG.with(|l| std::mem::take(&mut l.borrow_mut().1))
+}
+
+impl SimEvent {
+    /// The private (bypass, replace) flags of the event.
+    pub fn verif_flags(&self) -> (bool, bool) {
+        (self.bypass, self.replace)
+    }
+}
